@@ -488,6 +488,95 @@ Proof.
     + apply adaptive_formula_monotone; assumption.
 Qed.
 
+(* ---- round 3: what the update does exactly ---- *)
+Lemma Qc_mul_pos a b : 0 < a -> 0 < b -> 0 < a * b.
+Proof. intros Ha Hb. rewrite <- (Qcmult_0_l b). apply Qcmult_lt_compat_r; assumption. Qed.
+
+Lemma Qc_sub_pos_intro a b : a < b -> 0 < b - a.
+Proof. unfold Qcminus. apply Qclt_minus_iff. Qed.
+Lemma Qc_sub_pos_elim a b : 0 < b - a -> a < b.
+Proof. unfold Qcminus. apply Qclt_minus_iff. Qed.
+
+Lemma adaptive_formula_strict min_k max_k e_ref e_max Ei Ej :
+  min_k < max_k -> e_ref < e_max -> Ei < Ej ->
+  max_k - (max_k - min_k) * ((e_max - Ei) / (e_max - e_ref)) <
+  max_k - (max_k - min_k) * ((e_max - Ej) / (e_max - e_ref)).
+Proof.
+  intros Hk Hd Hij.
+  pose proof (Qc_sub_pos_intro _ _ Hd) as Hdpos. pose proof (pos_nonzero _ Hdpos) as Hdne.
+  apply Qc_sub_pos_elim.
+  match goal with |- 0 < ?a - ?b =>
+    replace (a - b) with ((max_k - min_k) * ((Ej - Ei) * / (e_max - e_ref))) by (field; exact Hdne) end.
+  apply Qc_mul_pos; [apply Qc_sub_pos_intro; exact Hk|].
+  apply Qc_mul_pos; [apply Qc_sub_pos_intro; exact Hij|apply Qcinv_pos; exact Hdpos].
+Qed.
+
+Lemma pmaxl_from_in : forall l m, pmaxl_from Qc OQ m l = m \/ In (pmaxl_from Qc OQ m l) l.
+Proof.
+  induction l as [|x l IH]; intros m; cbn [pmaxl_from]; [left; reflexivity|].
+  destruct (IH (pmax Qc OQ m x)) as [H|H].
+  - rewrite H. destruct (pmax_cases m x) as [E|E]; rewrite E; [left; reflexivity|right; left; reflexivity].
+  - right. right. exact H.
+Qed.
+
+Lemma pmaxl_in l : l <> [] -> In (pmaxl Qc OQ l) l.
+Proof.
+  destruct l as [|x l]; [congruence|]. intros _. cbn [pmaxl].
+  destruct (pmaxl_from_in l x) as [H|H]; [left; symmetry; exact H|right; exact H].
+Qed.
+
+(* the complete description of one adaptive update that is not skipped *)
+Lemma adaptive_k_props_strong min_k max_k es e_first :
+  min_k <= max_k ->
+  hd_error es = Some e_first ->
+  let e_last := last es e_first in
+  let e_ref := Qcmaxq e_first e_last in
+  let e_max := pmaxl Qc OQ es in
+  adaptive_skip Qc OQ min_k max_k e_first e_last es = energy_eqb e_ref e_max /\
+  In e_max es /\ (forall e, In e es -> e <= e_max) /\
+  (energy_eqb e_ref e_max = false ->
+   e_ref < e_max /\
+   forall Ei Ej, In Ei es -> In Ej es ->
+    let ki := adaptive_k Qc OQ min_k max_k e_first e_last es Ei in
+    let kj := adaptive_k Qc OQ min_k max_k e_first e_last es Ej in
+    (min_k <= ki /\ ki <= max_k) /\ (Ei <= Ej -> ki <= kj) /\
+    (min_k < max_k -> e_ref <= Ei -> Ei < Ej -> ki < kj) /\
+    (Ei < e_ref -> ki = min_k) /\ (Ei = e_max -> ki = max_k)).
+Proof.
+  intros Hk Hhd e_last e_ref e_max.
+  assert (Hne : es <> []) by (destruct es; [discriminate|discriminate]).
+  assert (Eref : pmax Qc OQ e_first e_last = e_ref) by apply pmax_q.
+  split; [rewrite adaptive_skip_closed, Eref; reflexivity|].
+  split; [apply pmaxl_in; exact Hne|]. split; [intros e He; apply pmaxl_ge; exact He|].
+  intros Hskip.
+  assert (Hskip' : adaptive_skip Qc OQ min_k max_k e_first e_last es = false)
+    by (rewrite adaptive_skip_closed, Eref; exact Hskip).
+  assert (Hfirst : In e_first es) by (destruct es; [discriminate|injection Hhd as ->; left; reflexivity]).
+  assert (Hlast : In e_last es).
+  { unfold e_last. destruct es as [|a es']; [discriminate|].
+    destruct (exists_last (l := a :: es')) as [l' [z Hz]]; [discriminate|].
+    rewrite Hz. rewrite last_last. apply in_or_app. right. left. reflexivity. }
+  assert (Hrefmax : e_ref <= e_max).
+  { rewrite <- Eref. destruct (pmax_cases e_first e_last) as [-> | ->]; apply pmaxl_ge; assumption. }
+  assert (Hd : e_ref < e_max).
+  { destruct (Qcle_lt_or_eq _ _ Hrefmax) as [H|H]; [exact H|].
+    rewrite H, energy_eqb_refl in Hskip. discriminate. }
+  split; [exact Hd|].
+  intros Ei Ej HiIn HjIn.
+  destruct (adaptive_k_props min_k max_k es e_first Hk Hhd Hskip' Ei Ej HiIn HjIn) as [B M].
+  cbv zeta in B, M. cbv zeta. split; [exact B|]. split; [exact M|].
+  rewrite !adaptive_k_closed. cbv zeta. rewrite Eref. fold e_max.
+  split; [|split].
+  - intros Hlt Hi Hij.
+    assert (E1 : Qcltb Ei e_ref = false) by (apply Qcltb_ge; exact Hi).
+    assert (E2 : Qcltb Ej e_ref = false)
+      by (apply Qcltb_ge; apply Qclt_le_weak; eapply Qcle_lt_trans; [exact Hi|exact Hij]).
+    rewrite E1, E2. apply adaptive_formula_strict; assumption.
+  - intros Hi. apply Qcltb_lt in Hi. rewrite Hi. reflexivity.
+  - intros ->. assert (E1 : Qcltb e_max e_ref = false) by (apply Qcltb_ge; apply Qclt_le_weak; exact Hd).
+    rewrite E1. field. apply pos_nonzero. apply Qc_sub_pos_intro. exact Hd.
+Qed.
+
 End QcHelpers.
 
 (* ============================================================================================ *)
@@ -852,27 +941,29 @@ Proof. reflexivity. Qed.
 Lemma outer_spec md fuel : forall band out,
   outer I dist build fuel idxs md band = POk out ->
   consecutive (pair_le md) out /\ hd_error out = hd_error band /\
-  (forall d, last out d = last band d) /\ (length band <= length out)%nat.
+  (forall d, last out d = last band d) /\ (length band <= length out)%nat /\
+  (forall x, In x band -> In x out).
 Proof.
   induction band as [|l rest IH]; intros out H.
-  - cbn in H. injection H as <-. repeat split; try reflexivity; cbn; lia.
+  - cbn in H. injection H as <-. repeat split; try reflexivity; try (cbn; lia); try (intros x Hx; exact Hx).
   - destruct rest as [|r rest'].
-    + cbn in H. injection H as <-. repeat split; try reflexivity; cbn; lia.
+    + cbn in H. injection H as <-. repeat split; try reflexivity; try (cbn; lia); try (intros x Hx; exact Hx).
     + rewrite outer_cons2 in H.
       destruct (build l r 2) as [sub0|] eqn:Eb; [|discriminate].
       destruct (inner I dist build fuel idxs md l r 2 sub0) as [sub| | | |] eqn:Ein; try discriminate.
       destruct (outer I dist build fuel idxs md (r :: rest')) as [tl| | | |] eqn:Eo; try discriminate.
       injection H as <-.
       destruct (inner_spec md l r fuel 2 sub0 sub (build_keeps_ends _ _ _ _ Eb) Ein) as [[mid ->] Hc].
-      destruct (IH tl eq_refl) as [Hctl [Hhd [Hlast Hlen]]].
+      destruct (IH tl eq_refl) as [Hctl [Hhd [Hlast [Hlen Hin]]]].
       cbn [hd_error] in Hhd. destruct tl as [|r0 tl']; [discriminate|]. injection Hhd as ->.
       replace (l :: mid ++ [r]) with ((l :: mid) ++ [r]) in * by reflexivity.
-      rewrite removelast_last. split; [|split; [|split]].
+      rewrite removelast_last. split; [|split; [|split; [|split]]].
       * apply consecutive_glue; assumption.
       * reflexivity.
       * intros d. rewrite last_app_cons. rewrite Hlast.
         change (l :: r :: rest') with ([l] ++ r :: rest'). rewrite last_app_cons. reflexivity.
       * rewrite app_length. cbn [length] in *. lia.
+      * intros x [<-|Hx]; [left; reflexivity|]. apply in_or_app. right. apply Hin. exact Hx.
 Qed.
 
 End MaxDist.
